@@ -34,6 +34,8 @@ type WriteSet struct {
 	// Readers: parameters (by index) whose reader position is advanced (reader model)
 	Readers      map[int]bool
 	ReaderCells  map[*ssa.Alloc]bool
+	// BufCells: local variables holding a *bytes.Buffer (created before the region) that the region writes to (buffer model)
+	BufCells map[*ssa.Alloc]bool
 	freshIn      func(*ssa.Alloc) bool
 	regionBlocks map[*ssa.BasicBlock]bool
 	// Except (only meaningful with All): heap keys that are preserved although everything else may be written
@@ -316,6 +318,12 @@ func (e *Engine) callWrites(cc *ssa.CallCommon, w *WriteSet, fn *ssa.Function, v
 	case *ssa.Builtin:
 		switch f.Name() {
 		case "append", "copy":
+			if f.Name() == "append" && len(cc.Args) > 0 {
+				if c, ok := cc.Args[0].(*ssa.Const); ok && c.Value == nil {
+					// append(nil, xs...) always allocates: it writes no memory that existed before the call
+					return
+				}
+			}
 			if len(cc.Args) > 0 {
 				if st, ok := cc.Args[0].Type().Underlying().(*types.Slice); ok {
 					key, _ := e.memKey(st.Elem())
@@ -390,6 +398,11 @@ func (e *Engine) callWrites(cc *ssa.CallCommon, w *WriteSet, fn *ssa.Function, v
 		switch funcKey(f) {
 		case "golang.org/x/sync/errgroup.WithContext", "golang.org/x/sync/errgroup.Group.Wait",
 			"golang.org/x/sync/semaphore.Weighted.Acquire", "golang.org/x/sync/semaphore.Weighted.Release", "golang.org/x/sync/semaphore.Weighted.TryAcquire":
+			return
+		}
+		if ai, ok := bufOpArg(f); ok && ai < len(cc.Args) {
+			// a buffer-model operation: writes exactly the buffer it is given
+			e.noteBufWrite(cc.Args[ai], f, w, fn, inRegion)
 			return
 		}
 		if ai, ok := readerOpArg(f); ok && ai < len(cc.Args) {
